@@ -250,7 +250,10 @@ func evalC14(c *Ctx, cs *Case) {
 				fe := (k + ei + int(cs.Seed%7)) % len(faultErrs)
 				sentinel := faultErrs[fe]
 				c.SetAdd("injected_error_kinds", faultErrNames[fe])
-				rd := &mon.FaultReader{Doc: doc, K: k, Chunk: 1 + (k*7+ei)%13, Err: sentinel}
+				rd := &mon.FaultReader{Doc: doc, K: k, Chunk: 1 + (k*7+ei)%13, Err: sentinel, ErrWithData: (k+ei)%2 == 1}
+				if rd.ErrWithData {
+					c.Count("reader_faults_delivered_together_with_data", 1)
+				}
 				base := runtime.NumGoroutine()
 				o := Guard(func() error { return e.run(rd, massive, target) })
 				if massive {
